@@ -1,3 +1,54 @@
-import Compio.Model.ActorWorld
+/-
+C19 — machine-checked witness of finding F14: a call whose envelope is still queued when the actor exits is
+never completed (the code as it is: `finish` drops the flume receiver, flume keeps queued items until the last
+sender is gone, and the caller's own `Mailbox` is a sender).
+Replayed on the real code by corpus/C19/f14-call-stranded.case (monitor `F14:call-stranded-at-exit`).
+-/
+import Compio.Props.C19
+
 namespace Compio.Cex.C19
+set_option linter.unusedSimpArgs false
+open Compio Compio.Actor Compio.Props.C19
+
+/-- capacity 4: message 1 is being handled when call 2 is accepted; the handler stops the actor; the next
+`recv` prefers the stop request; `finish` runs; call 2 stays queued in the dead channel -/
+def strandedSchedule : List Ev :=
+  [ .preStart true, .signalStarted, .postStart true,
+    .sendCheck ⟨1, false, 2⟩, .sendPush ⟨1, false, 2⟩, .pollStop, .pollMsg,
+    .sendCheck ⟨2, true, 4⟩, .sendPush ⟨2, true, 4⟩,
+    .stopSwap, .stopPush, .handlerEnd true, .pollStop,
+    .beginStop, .preStop true, .dropRx, .postStop true, .release ]
+
+/-- the actor is gone, nobody is in the middle of a send, one call was issued and none was ever answered -/
+theorem call_stranded_counterexample :
+    ∃ s, run (St.init 4 false) strandedSchedule = some s ∧
+      s.pc = .exited .stopped ∧ s.inflight = [] ∧ s.issued = 1 ∧ s.resolved = [] ∧
+      s.queue = [⟨2, true, 4⟩] ∧ s.callResult 2 = none := by
+  refine ⟨_, rfl, ?_⟩
+  decide
+
+/-- hence the unguarded statement of `calls_over_after_exit_partial` is false -/
+theorem calls_over_after_exit_counterexample :
+    ¬ (∀ (cap : Nat) (named : Bool) (s : St), Reached cap named s →
+        ∀ e, s.pc = .exited e → s.inflight = [] → s.issued = s.resolved.length) := by
+  intro h
+  obtain ⟨s, hr, hp, hin, his, hres, _⟩ := call_stranded_counterexample
+  have := h 4 false s ⟨strandedSchedule, hr⟩ _ hp hin
+  rw [his, hres] at this
+  simp at this
+
+/-- and the call stays pending for good: after the exit nothing dequeues any more, and as long as a `Mailbox`
+handle exists (no `dropSenders`) the only calls that get an answer are new ones, rejected with `Closed` -/
+theorem stranded_forever {cap named} (s s' : St) (hreach : Reached cap named s) (e : Ev) (x : Exit)
+    (hp : s.pc = .exited x) (hs : step s e = some s') (hne : e ≠ .dropSenders) :
+    s'.pc = .exited x ∧ s'.queue = s.queue ∧ s'.handled = s.handled ∧
+    (∀ c r, (c, r) ∈ s'.resolved → (c, r) ∈ s.resolved ∨
+      (r = .closed ∨ r = .full) ∧ ∃ it, it.id = c ∧ (e = .sendCheck it ∨ e = .sendPush it)) := by
+  have hrx : s.rxAlive = false := by
+    obtain ⟨evs, hr⟩ := hreach
+    have hR : InvR s := run_induct (invR_init cap named) invR_step hr
+    simp [hR.rx, hp, Pc.rxDropped]
+  cases e <;> simp only [step] at hs <;> step_cases hs <;>
+    simp_all [St.obs, resolve_resolved, St.pushRes] <;> (try split) <;> (try simp_all) <;> (try grind)
+
 end Compio.Cex.C19
